@@ -440,8 +440,9 @@ func c07RangeScope() *drv.Scope {
 
 // c07HelperScope: the quantiser helpers alone, including exact ties.
 func c07HelperScope() *drv.Scope {
-	fr := []float64{0, 0.25, 0.49, 0.5, 0.51, 0.75}
-	ks := []float64{0, 1, 2, 7, 1234567, 99999999}
+	// 0.49999999999999994 + 0.5 rounds to 1 in float64; odd integers in [2^52, 2^53) are where v+0.5 is not representable
+	fr := []float64{0, 0.25, 0.49, 0.5, 0.51, 0.75, 0.49999999999999994}
+	ks := []float64{0, 1, 2, 7, 1234567, 99999999, 4503599627370497, 6755399441055745, 9007199254740991}
 	n := uint64(len(fr) * len(ks) * 2 * len(c07Precisions))
 	return &drv.Scope{Name: "quantiser-helpers/{k+f} x sign x precision", Level: 1, Size: n,
 		Show: func(idx uint64) any { return idx },
@@ -451,6 +452,11 @@ func c07HelperScope() *drv.Scope {
 			neg := (idx/uint64(len(fr)*len(ks)))%2 == 1
 			p := c07Precisions[idx/uint64(len(fr)*len(ks)*2)]
 			scale := math.Pow(10, float64(p))
+			if k >= 1<<52 && p != 0 {
+				// beyond 2^52 the float64 product v*10^p carries its own rounding error of up to half a unit, which the
+				// statement's "multiplied by 10^p and rounded" does not settle: these magnitudes are judged at p = 0 only
+				return
+			}
 			v := (k + f) / scale
 			if neg {
 				v = -v
